@@ -17,6 +17,7 @@ import Hw.Topo.RenderCover
 import Hw.Topo.RenderSets
 import Hw.Topo.RenderPU
 import Hw.Topo.RestrictExists
+import Hw.Topo.RestrictAllowed
 import Hw.Attr.MemAttrsState
 namespace Hw.Props.C08
 open Hw.Topo Hw.Topo.Restrict Hw.Gen.Restrict
@@ -1028,5 +1029,102 @@ example : coverT demo.allowedCpu tPU demo.tree = true ∧ coverT demo.allowedNod
     (plan demo ⟨2, false⟩ flagAdaptMisc).isSome = true ∧ (restrict demo ⟨2, false⟩ flagAdaptMisc).2 = .ok ∧
     puLevelLast (restrict demo ⟨2, false⟩ flagAdaptMisc).1.tree = true ∧
     (normalLevels (restrict demo ⟨2, false⟩ flagAdaptMisc).1.tree).map (·.1) = [tMACHINE, tCORE, tPU] := by decide +kernel
+
+/-- (2) the protected object of the OTHER kind under REMOVE_CPULESS / REMOVE_MEMLESS: hwloc_topology_restrict refuses the call when
+    every allowed node (PU) would be dropped (`inside allowed dropped`), so some allowed index is not the os_index of a dropped
+    object; when the allowed set is covered (`coverT`), the NUMA node (PU) that carries it is not CPU-less (memory-less) afterwards,
+    i.e. protected -/
+theorem C08_restrict_other_kind_protected (t : Topo) (s : CSet) (flags : Nat) (p : Params) (hp : plan t s flags = some p)
+    (hx : p.rmExempt = true) :
+    (p.byNode = false → coverT t.allowedNode tNUMA t.tree = true → ∃ x ∈ objsT t.tree, x.type = tNUMA ∧ protNUMA p x = true) ∧
+    (p.byNode = true → coverT t.allowedCpu tPU t.tree = true → ∃ x ∈ objsT t.tree, x.type = tPU ∧ protPUn p x = true) :=
+  other_kind_protected t s flags p hp hx
+
+/-- (3) **allowed-sets**: the tree-level clause (`allowedOKT`: the root carries sets, the allowed sets are inside — without
+    INCLUDE_DISALLOWED equal to — the root's sets) holds for the tree of every WF dump, is preserved by every restrict call (the
+    same dropped sets are subtracted from the root's sets and from the allowed sets; level merging never touches the root object),
+    and gives the WF clause allowed-sets of the rendering -/
+theorem C08_restrict_allowed_sets (d : Dump) (h : WF d) (t : Tree) (ht : treeOf d = .ok t) :
+    allowedOKT { tree := t, allowedCpu := d.allowedCpuset.getD 0, allowedNode := d.allowedNodeset.getD 0, filters := d.filters }
+      (flagIncludeDisallowed d) = true ∧
+    (∀ (T : Topo) (s : CSet) (flags : Nat) (incl : Bool), okT T.tree = true → typedT T.tree = true → isNormal T.tree.obj.type = true →
+      puLeafT T.tree = true → mergeSafe T → allowedOKT T incl = true → allowedOKT (restrict T s flags).1 incl = true) ∧
+    (∀ (T : Topo) (fl : Nat) (ex : RObj → Extra), allowedOKT T (fl % 2 == 1) = true →
+      topClause "allowed-sets" (render T.tree ⟨fl, T.filters, some T.allowedCpu, some T.allowedNode⟩ ex)
+        (mkAux (render T.tree ⟨fl, T.filters, some T.allowedCpu, some T.allowedNode⟩ ex)) = true) :=
+  ⟨wf_allowedOK h t ht, fun T s flags incl hok hty hr hl hs ha => allowedOK_restrict T s flags incl hok hty hr hl hs ha,
+   fun T fl ex ha => render_allowed_sets T fl ha ex⟩
+
+theorem restrict_ok_plan (t : Topo) (s : CSet) (flags : Nat) (h : (restrict t s flags).2 = .ok) : ∃ p, plan t s flags = some p := by
+  cases hp : plan t s flags with
+  | some p => exact ⟨p, rfl⟩
+  | none => unfold restrict at h; rw [hp] at h; cases h
+
+/-- the four topology-level clauses of this section -/
+def provedTopClausesB2 : List String := ["normal-level-types", "pu-level-deepest", "numa-exists", "allowed-sets"]
+
+/-- **C08_restrict_from_wf_top_partial** — from `WF d` (a tree could be rebuilt, the API fact on filters) and the coverage of the two
+    allowed sets by the PUs / NUMA nodes (`coverT`, a consequence of the C01 set clauses that is evaluated, not derived): for EVERY
+    set and EVERY flag word — REMOVE_CPULESS / REMOVE_MEMLESS included, refused calls included — the rendering of the model's result
+    satisfies normal-level-types, pu-level-deepest, numa-exists and allowed-sets.  With the 11 clauses of
+    C08_restrict_from_wf_partial: 15 of the 18 topology-level clauses (the other three are the uniqueness clauses
+    pu-osindex-unique / numa-osindex-unique / gp-index-unique).
+    `_partial`: `coverT` stays a hypothesis. -/
+theorem C08_restrict_from_wf_top_partial (d : Dump) (h : WF d) (t : Tree) (ht : treeOf d = .ok t)
+    (hf1 : filterOf d.filters tPU ≠ filterKeepStructure) (hf2 : filterOf d.filters tMACHINE ≠ filterKeepStructure)
+    (hcp : coverT (d.allowedCpuset.getD 0) tPU t = true) (hcn : coverT (d.allowedNodeset.getD 0) tNUMA t = true)
+    (s : CSet) (flags : Nat) (ex : RObj → Extra) :
+    let T : Topo := { tree := t, allowedCpu := d.allowedCpuset.getD 0, allowedNode := d.allowedNodeset.getD 0, filters := d.filters }
+    let D := afterDump T d.flags s flags ex
+    ∀ c ∈ provedTopClausesB2, topClause c D (mkAux D) = true := by
+  intro T D
+  obtain ⟨hok, hty, hm, hr, hleaf, hpus, hnumas⟩ := wf_treeOf_full h t ht
+  obtain ⟨_, h1m, hsafe⟩ := C08_wf_mergeSafe d h t ht (d.allowedCpuset.getD 0) (d.allowedNodeset.getD 0) hf1 hf2
+  have base := C08_restrict_from_wf_levels_partial d h t ht hf1 hf2 s flags ex
+  have hall : topClause "allowed-sets" D (mkAux D) = true :=
+    render_allowed_sets (restrict T s flags).1 d.flags
+      (allowedOK_restrict T s flags _ hok hty hr hleaf hsafe (wf_allowedOK h t ht)) ex
+  have hboth : topClause "pu-level-deepest" D (mkAux D) = true ∧ topClause "numa-exists" D (mkAux D) = true := by
+    cases hret : (restrict T s flags).2 with
+    | einval => exact base.2.1 (by rw [hret]; decide)
+    | rootRemoved => exact base.2.1 (by rw [hret]; decide)
+    | ok =>
+      obtain ⟨p, hp⟩ := restrict_ok_plan T s flags hret
+      obtain ⟨hPU, hNUMA, hPUn, hNUMAc, hPUc, hNUMAn⟩ := base.2.2 p hp hret
+      cases hb : p.byNode with
+      | false =>
+        refine ⟨hPUc hb hcp, ?_⟩
+        cases hx : p.rmExempt with
+        | false => exact hNUMAc hb hx
+        | true =>
+          obtain ⟨x, hxm, hxt, hxp⟩ := (other_kind_protected T s flags p hp hx).1 hb hcn
+          exact hNUMA ⟨x, hxm, hxt, by rw [hb]; simp only [Bool.false_eq_true, if_false]; exact hxp⟩
+      | true =>
+        refine ⟨?_, hNUMAn hb hcn⟩
+        cases hx : p.rmExempt with
+        | false => exact hPUn hb hx
+        | true =>
+          obtain ⟨x, hxm, hxt, hxp⟩ := (other_kind_protected T s flags p hp hx).2 hb hcp
+          exact hPU ⟨x, hxm, hxt, by rw [hb]; simp only [if_true]; exact hxp⟩
+  intro c hc
+  simp only [provedTopClausesB2, List.mem_cons, List.mem_nil_iff, or_false] at hc
+  rcases hc with rfl | rfl | rfl | rfl
+  · exact base.1
+  · exact hboth.1
+  · exact hboth.2
+  · exact hall
+
+/-- non-vacuity of C08_restrict_from_wf_top_partial / C08_restrict_other_kind_protected: `demoDump` meets every hypothesis (WF, the
+    filter facts, a tree: examples above; coverage: here), `demoMerge` is covered too and its call by nodeset with REMOVE_MEMLESS is
+    planned with `rmExempt`, and the rendering of the result of that call satisfies the four clauses -/
+example : (match treeOf demoDump with
+      | .ok t => coverT (demoDump.allowedCpuset.getD 0) tPU t && coverT (demoDump.allowedNodeset.getD 0) tNUMA t
+      | .error _ => false) = true ∧
+    coverT demoMerge.allowedCpu tPU demoMerge.tree = true ∧ coverT demoMerge.allowedNode tNUMA demoMerge.tree = true ∧
+    ((plan demoMerge ⟨1, false⟩ (flagByNodeset ||| flagRemoveMemless)).map (fun p => p.byNode && p.rmExempt)) = some true ∧
+    allowedOKT demoMerge false = true ∧
+    provedTopClausesB2.all (fun c =>
+      topClause c (afterDump demoMerge 0 ⟨1, false⟩ (flagByNodeset ||| flagRemoveMemless) (fun _ => {}))
+        (mkAux (afterDump demoMerge 0 ⟨1, false⟩ (flagByNodeset ||| flagRemoveMemless) (fun _ => {})))) = true := by decide +kernel
 
 end Hw.Props.C08
